@@ -366,6 +366,15 @@ class ASTRewriter(ast.NodeTransformer):
                 and isinstance(_sval.slice, ast.Tuple)
                 and isinstance(arg.slice, ast.Constant)
             ):
+                # The length of the selected row, not the number of rows
+                n_inner = len(_sval.slice.elts)
+                if 0 <= arg.slice.value < len(_sval.slice.elts):
+                    row = _sval.slice.elts[arg.slice.value]
+                    if isinstance(row, ast.Subscript):
+                        row = row.slice
+                    if isinstance(row, ast.Tuple):
+                        n_inner = len(row.elts)
+
                 return [
                     ast.Subscript(
                         value=ast.Subscript(
@@ -374,7 +383,7 @@ class ASTRewriter(ast.NodeTransformer):
                         ),
                         slice=ast.Constant(value=i, kind=None),
                     )
-                    for i in range(len(_sval.slice.elts))
+                    for i in range(n_inner)
                 ]
         elif isinstance(arg, ast.Name):
             # If it's a name, is in env and is a Tuple, return elements
